@@ -7,12 +7,13 @@
   `LcpSpec`.  No sorry, no axioms of its own.
 -/
 import LzProofs.GenBUPParseLemmas
+import LzProofs.GenCallByName
 
 set_option linter.unusedSimpArgs false
 set_option linter.unusedVariables false
 
 namespace LZ.GenBUPParse
-open LZ LZ.Gen LZ.GenBuf LZ.GenHash LZ.GenHPParse LZ.GenParse
+open LZ LZ.Gen LZ.GenDec LZ.GenBuf LZ.GenHash LZ.GenHPParse LZ.GenParse
 
 /-- the parser state with another bucket table -/
 @[reducible] def setB (s : Gen.bucketParser) (g : Gen.bucketHash) : Gen.bucketParser :=
@@ -62,17 +63,20 @@ theorem loop1_step (grow : Nat → Nat → Nat) (lcp : Slice → Slice → Int) 
     (hfuel : L ≤ fuel + i) :
     ∃ r, ProbeW.bupProbeW ws mmN E (A.drop L) (ofBucket s.bucketDictionary.bucketHash) (A.take L) i li = some r ∧
       ∃ g', BOK g' ∧ SameCfg s.bucketDictionary.bucketHash g' ∧ r.1 = ofBucket g' ∧
-        bucketParser_Parse_loop_1 grow lcp inputEnd { arr := A, len := E + 7 } { arr := A, len := L } mm (fuel + 1) ia s blk lia =
+        (gcall% bucketParser_Parse_loop_1 [grow := grow, lcp := lcp, inputEnd := inputEnd,
+            _p := ({ arr := A, len := E + 7 } : Slice), p := ({ arr := A, len := L } : Slice), minMatchLen := mm,
+            fuel := fuel + 1, i := ia, s := s, blk := blk, litIndex := lia]) =
           (match r.2 with
           | none =>
-            bucketParser_Parse_loop_1 grow lcp inputEnd { arr := A, len := E + 7 } { arr := A, len := L } mm fuel (ia + 1)
-              (setB s g') blk lia
+            (gcall% bucketParser_Parse_loop_1 [grow := grow, lcp := lcp, inputEnd := inputEnd,
+            _p := ({ arr := A, len := E + 7 } : Slice), p := ({ arr := A, len := L } : Slice), minMatchLen := mm,
+            fuel := fuel, i := ia + 1, s := setB s g', blk := blk, litIndex := lia])
           | some (st, k, o) =>
-            bucketParser_Parse_loop_1 grow lcp inputEnd { arr := A, len := E + 7 } { arr := A, len := L } mm fuel
-              ((i + k : Nat) : Int) (setB s g')
+            (gcall% bucketParser_Parse_loop_1 [grow := grow, lcp := lcp, inputEnd := inputEnd,
+            _p := ({ arr := A, len := E + 7 } : Slice), p := ({ arr := A, len := L } : Slice), minMatchLen := mm,
+            fuel := fuel, i := ((i + k : Nat) : Int), s := setB s g', blk := 
               { Sequences := blk.Sequences ++ [seqRep { litLen := i - li, matchLen := k, offset := o }],
-                Literals := Slice.append grow blk.Literals ((A.drop li).take (i - li)) }
-              ((i + k : Nat) : Int)) ∧
+                Literals := Slice.append grow blk.Literals ((A.drop li).take (i - li)) }, litIndex := ((i + k : Nat) : Int)])) ∧
         (∀ st k o, r.2 = some (st, k, o) → st = i ∧ 1 ≤ k ∧ i + k ≤ L) := by
   -- the memory
   have hmem : BytesW.sliceTo (A.take L) (A.drop L) (E + 7) = some (A.take (E + 7)) := by
@@ -144,8 +148,10 @@ theorem loop1_step (grow : Nat → Nat → Nat) (lcp : Slice → Slice → Int) 
     (by rw [List.length_drop]; omega)
     (fun t ht => view_get g hb.gwf base (base + bsN - base) t ht (by omega))
     (y &&& g.mask).toUInt32 ia i hia s hws0 A L hLA (by omega) (base + bsN - base) 0 0 0 (by omega)
-  have hsc' : bucketParser_Parse_loop_2 grow fuel lcp { arr := g.buckets.arr.drop base, len := base + bsN - base }
-      (y &&& g.mask).toUInt32 ia s { arr := A, len := L } (base + bsN - base) (0 : Int) (0 : Int) (0 : Int) =
+  have hsc' : (gcall% bucketParser_Parse_loop_2 [grow := grow, fuel := fuel, lcp := lcp,
+      view1 := ({ arr := g.buckets.arr.drop base, len := base + bsN - base } : GSlice Gen.bucketEntry),
+      v := (y &&& g.mask).toUInt32, i := ia, s := s, p := ({ arr := A, len := L } : Slice), rest_1 := base + bsN - base,
+      i_2 := (0 : Int), o := (0 : Int), k := (0 : Int)]) =
       Res.ok ((o : Int), (k : Int)) := by
     refine hsc.trans ?_
     have e1 : base + bsN - base = bsN := by omega
@@ -212,37 +218,74 @@ theorem loops_eq (grow : Nat → Nat → Nat) (lcp : Slice → Slice → Int) (h
     ∃ (st' : LoopSt BucketT) (g' : Gen.bucketHash) (blk' : Block'),
       ProbeW.greedyLoopW (ProbeW.bupProbeW ws mmN E (A.drop L)) (A.take L) E
         { dict := ofBucket s.bucketDictionary.bucketHash, i := W, litIndex := W, seqs := [], lits := [] } = some st' ∧
-      bucketParser_Parse_loop_1 grow lcp eI { arr := A, len := E + 7 } { arr := A, len := L } mm fuel (W : Int) s blk (W : Int) =
-        Res.ok ((st'.i : Int), setB s g', blk', (st'.litIndex : Int)) ∧
+      (gcall% bucketParser_Parse_loop_1 [grow := grow, lcp := lcp, inputEnd := eI,
+            _p := ({ arr := A, len := E + 7 } : Slice), p := ({ arr := A, len := L } : Slice), minMatchLen := mm,
+            fuel := fuel, i := (W : Int), s := s, blk := blk, litIndex := (W : Int)]) =
+        Res.ok (gstate% bucketParser_Parse_loop_1 [i := (st'.i : Int), s := setB s g', blk := blk',
+          litIndex := (st'.litIndex : Int)]) ∧
       BOK g' ∧ SameCfg s.bucketDictionary.bucketHash g' ∧ st'.dict = ofBucket g' ∧
       blk'.Sequences = st'.seqs.map seqRep ∧ blk'.Literals.data = st'.lits ∧ SWF blk'.Literals ∧
       W ≤ st'.litIndex ∧ st'.litIndex ≤ L := by
+  -- the generic lemma wants the state as `(i, s, blk, litIndex)`: the components of the result are taken by name
+  let loopF : Nat → Int → Gen.bucketParser → Block' → Int → Res (Int × Gen.bucketParser × Block' × Int) :=
+    fun fuel ia s blk lia =>
+      Res.bind (gcall% bucketParser_Parse_loop_1 [grow := grow, lcp := lcp, inputEnd := eI,
+            _p := ({ arr := A, len := E + 7 } : Slice), p := ({ arr := A, len := L } : Slice), minMatchLen := mm,
+            fuel := fuel, i := ia, s := s, blk := blk, litIndex := lia]) fun r =>
+        Res.ok (gproj% bucketParser_Parse_loop_1 i ((), r), gproj% bucketParser_Parse_loop_1 s ((), r),
+          gproj% bucketParser_Parse_loop_1 blk ((), r), gproj% bucketParser_Parse_loop_1 litIndex ((), r))
   obtain ⟨st1, s1, blk1, hg1, hl1, ⟨g1, rfl, hb1, hsc1⟩, hd1, hE1, hiL1, hli1, hsq1, hlt1, hswf1, hW1⟩ :=
-    greedy_generic (ProbeW.bupProbeW ws mmN E (A.drop L))
-      (bucketParser_Parse_loop_1 grow lcp eI { arr := A, len := E + 7 } { arr := A, len := L } mm)
+    greedy_generic (ProbeW.bupProbeW ws mmN E (A.drop L)) loopF
       (fun s' => ofBucket s'.bucketDictionary.bucketHash) (InvB s)
       grow A L E E 0 0 (Nat.le_refl _) hEL hLA
-      (fun fuel ia s blk lia h => by rw [bucketParser_Parse_loop_1, if_neg (by omega)])
+      (fun fuel ia s blk lia h => by
+        show Res.bind (gcall% bucketParser_Parse_loop_1 [grow := grow, lcp := lcp, inputEnd := eI,
+            _p := ({ arr := A, len := E + 7 } : Slice), p := ({ arr := A, len := L } : Slice), minMatchLen := mm,
+            fuel := fuel + 1, i := ia, s := s, blk := blk, litIndex := lia]) _ = _
+        rw [bucketParser_Parse_loop_1, if_neg (by omega)]
+        try rfl)
       (fun fuel i li ia lia s' blk hinv hia hlia hlo hi hli hf => by
         obtain ⟨g, rfl, hbg, hscg⟩ := hinv
         obtain ⟨r, hr, g', hb', hsc', hr1, hstp, hbnd⟩ := loop1_step grow lcp hlcp eI mm A L E mmN ws
           fuel i li ia lia (setB s g) blk (c.of_same hscg) hbg hia hlia hE hmm hi hEL hLA hEA hli hws hws0 hmm1 (by omega)
         refine ⟨r, hr, setB s g', ⟨g', rfl, hb', hscg.trans hsc'⟩, hr1, ?_, ?_⟩
-        · obtain ⟨d, m⟩ := r
+        · show Res.bind (gcall% bucketParser_Parse_loop_1 [grow := grow, lcp := lcp, inputEnd := eI,
+            _p := ({ arr := A, len := E + 7 } : Slice), p := ({ arr := A, len := L } : Slice), minMatchLen := mm,
+            fuel := fuel + 1, i := ia, s := setB s g, blk := blk, litIndex := lia]) _ = _
+          rw [hstp]
+          obtain ⟨d, m⟩ := r
           cases m with
-          | none => exact hstp
+          | none => rfl
           | some m =>
             obtain ⟨st, k, o⟩ := m
             obtain ⟨rfl, -, -⟩ := hbnd st k o rfl
-            exact hstp
+            rfl
         · intro st k o hc
           obtain ⟨rfl, h1, h2⟩ := hbnd st k o hc
           exact ⟨hli, Nat.le_refl _, by omega, h2⟩)
       (E - W) fuel W W (W : Int) (W : Int) s blk [] [] (by omega) (Nat.zero_le _) hW (Nat.le_refl _) rfl rfl
       (by omega) ⟨_, rfl, hb, SameCfg.refl _⟩ (by rw [hsq]; rfl) hlt hswf
-  refine ⟨st1, g1, blk1, ?_, hl1, hb1, hsc1, hd1, hsq1, hlt1, hswf1, hW1, by omega⟩
-  rw [hg1]
-  exact ProbeW.greedyLoopW_done _ _ _ _ (by omega)
+  refine ⟨st1, g1, blk1, ?_, ?_, hb1, hsc1, hd1, hsq1, hlt1, hswf1, hW1, by omega⟩
+  · rw [hg1]
+    exact ProbeW.greedyLoopW_done _ _ _ _ (by omega)
+  · have hl1' : Res.bind (gcall% bucketParser_Parse_loop_1 [grow := grow, lcp := lcp, inputEnd := eI,
+            _p := ({ arr := A, len := E + 7 } : Slice), p := ({ arr := A, len := L } : Slice), minMatchLen := mm,
+            fuel := fuel, i := (W : Int), s := s, blk := blk, litIndex := (W : Int)])
+        (fun r => Res.ok (gproj% bucketParser_Parse_loop_1 i ((), r), gproj% bucketParser_Parse_loop_1 s ((), r),
+          gproj% bucketParser_Parse_loop_1 blk ((), r), gproj% bucketParser_Parse_loop_1 litIndex ((), r))) =
+        Res.ok ((st1.i : Int), setB s g1, blk1, (st1.litIndex : Int)) := hl1
+    cases hL : (gcall% bucketParser_Parse_loop_1 [grow := grow, lcp := lcp, inputEnd := eI,
+            _p := ({ arr := A, len := E + 7 } : Slice), p := ({ arr := A, len := L } : Slice), minMatchLen := mm,
+            fuel := fuel, i := (W : Int), s := s, blk := blk, litIndex := (W : Int)]) with
+    | ok r =>
+      -- the components of the result by name; the tuple is put together again by eta
+      rw [hL, bind_ok] at hl1'
+      injection hl1' with hl1'
+      simp only [Prod.mk.injEq] at hl1'
+      obtain ⟨q1, q2, q3, q4⟩ := hl1'
+      rw [← q1, ← q2, ← q3, ← q4]
+    | panic => rw [hL] at hl1'; cases hl1'
+    | fuel => rw [hL] at hl1'; cases hl1'
 
 end LZ.GenBUPParse
 
